@@ -32,7 +32,7 @@ func init() {
 		Real: []string{"dual.DHT.GetValue/SearchValue (dual/dual.go)", "routing-helpers Parallel.SearchValue merge", "two IpfsDHT instances (WAN/LAN) with dual's query, table and address filters", "ProtocolMessenger.GetValue"},
 		Stub: []string{"host.Host/network (simhost, shared by both instances)", "two pb.MessageSenders (level A; told apart by protocol list)", "remote peers (scripted responders, WAN: public addresses, LAN: private addresses)", "record validator (harness rank validator, time-aware)"},
 		Faults: []string{"fault_rec_invalid", "fault_rec_miskeyed", "fault_rec_empty", "fault_rpc_error", "fault_dial_fail", "fault_cancel", "time_advance",
-			"probe_found", "probe_notfound", "probe_stream_multi", "probe_dual_both_sides_answered", "probe_local_valid", "probe_local_expired"},
+			"probe_found", "probe_notfound", "probe_stream_multi", "probe_dual_both_sides_answered", "probe_local_valid", "probe_local_expired", "probe_local_expired_midsearch", "probe_peer_serves_local_bytes_valid", "probe_peer_serves_local_bytes_expired_at_start", "probe_peer_serves_local_bytes_expired_midsearch"},
 	})
 }
 
